@@ -241,7 +241,7 @@ BoundOps ==
 \* io vocabulary: export / import separated in time, edits through mutable containers in between
 IoOps ==
   {[a |-> "RoundTrip", s |-> 1, fmt |-> f] : f \in {"json", "yaml", "sbml", "pickle"}}
-  \cup {[a |-> "SaveDoc", s |-> 1, fmt |-> f] : f \in {"json", "sbml"}}
+  \cup {[a |-> "SaveDoc", s |-> 1, fmt |-> f] : f \in {"json", "sbml", "dict"}}
   \cup {[a |-> "LoadDoc", s |-> t] : t \in {1, 2}}
   \cup {[a |-> "Annotate", s |-> 1, x |-> "MODEL", v |-> 3, via |-> 2],
         [a |-> "Annotate", s |-> 1, x |-> "g1", v |-> 4, via |-> 0],
@@ -302,6 +302,10 @@ FullOps ==
         [a |-> "SetObjective", s |-> 1, form |-> 0, d |-> [x \in RxU |-> IF x = "r2" THEN 1 ELSE 0]],
         [a |-> "RxnAddMetabolites", s |-> 1, r |-> "r1", d |-> D1("m1", -2), combine |-> FALSE, form |-> 2],
         [a |-> "Repair", s |-> 1],
+        \* analyses inside the open context: whatever they do to the model is undone with it
+        [a |-> "Analyze", s |-> 1, kind |-> "optimize_min", arg |-> 0],
+        [a |-> "Analyze", s |-> 1, kind |-> "pfba", arg |-> 0],
+        [a |-> "Analyze", s |-> 1, kind |-> "fva_loopless", arg |-> 0],
         [a |-> "Enter", s |-> 1], [a |-> "Exit", s |-> 1]}
 \* (the copy is made INSIDE an open context of the original: leaving it must not touch the copy)
 FullPrefix == IF FullSet = "copy" THEN SeedOps(2, "glpk") \o <<[a |-> "Enter", s |-> 1],
